@@ -4,7 +4,7 @@
     structural (a Fixpoint over the characters of the token). *)
 From Coq Require Import List NArith ZArith.
 From Cicada Require Import Base.Chars Base.Tag Model.Expand Model.ExpandRef
-  Proofs.ExpandBasics Proofs.EnvProofs Proofs.ExpandOnceProofs Proofs.EnvGate Proofs.SubstProofs Proofs.ExpandInert.
+  Proofs.ExpandBasics Proofs.EnvProofs Proofs.ExpandOnceProofs Proofs.EnvGate Proofs.SubstProofs Proofs.ExpandInert Proofs.GateAnchorProofs.
 From Cicada Require Model.Tokenizer.
 Import ListNotations.
 Local Open Scope N_scope.
@@ -47,6 +47,28 @@ Qed.
     reverse -- and PROVED to be the per-token map: each text lands on the token it was computed from. *)
 Theorem C10_index_buffer : forall W toks, expand_env W toks = map (expand_env_tok W) toks.
 Proof. exact expand_env_map. Qed.
+
+(** The command-substitution exemption of the gate fires only on a word that IS one $( ... ) from its first to its
+    last character (the pattern is anchored at both ends: proved from the GENERATED regex AST, so dropping the anchor in
+    the source breaks this proof) ... *)
+Theorem C10_gate_whole_word : forall t,
+  Regex.rx_search Gen.ShellRegexes.rx_env_sub3 t = true -> exists mid, t = 36 :: 40 :: mid ++ [41].
+Proof. exact sub3_whole_word. Qed.
+(** ... so references FOLLOWED by a command substitution that ends the word are let through by the gate and replaced,
+    the adjacent text -- the substitution -- preserved, for every world and value:  $A/$(cmd)  "$A and $(cmd)"  ${A}$(cmd). *)
+Theorem C10_gate_accepts_refs_before_cmdsub : forall q ps c,
+  wf_pieces ps = true -> count_refs ps <> 0%nat -> has_dollar_paren (render_pieces ps) = false ->
+  ~ In 96 (render_pieces ps ++ 36 :: 40 :: c ++ [41]) ->
+  (q = true \/ ~ In 39 (render_pieces ps ++ 36 :: 40 :: c ++ [41])) ->
+  env_in_tagged_token (render_pieces ps ++ 36 :: 40 :: c ++ [41]) q = true.
+Proof. exact gate_accepts_refs_before_cmdsub. Qed.
+Theorem C10_refs_before_cmdsub : forall W tg ps c,
+  (tg = TNone \/ tg = TDq) -> wf_pieces ps = true -> count_refs ps <> 0%nat ->
+  has_dollar_paren (render_pieces ps) = false -> ~ In 36 c ->
+  ~ In 96 (render_pieces ps ++ 36 :: 40 :: c ++ [41]) ->
+  (tg = TDq \/ ~ In 39 (render_pieces ps ++ 36 :: 40 :: c ++ [41])) ->
+  expand_env_tok W (tg, render_pieces ps ++ 36 :: 40 :: c ++ [41]) = (tg, den_pieces W ps ++ 36 :: 40 :: c ++ [41]).
+Proof. exact expand_env_tok_refs_before_cmdsub. Qed.
 
 (** A whole line of words (tag, segment list): quoted ones unchanged, the others substituted, each
     in its place. *)
@@ -121,6 +143,9 @@ Print Assumptions C10_refuted.
 Print Assumptions C10_refuted_exemption.
 Print Assumptions C10_partial.
 Print Assumptions C10_index_buffer.
+Print Assumptions C10_gate_whole_word.
+Print Assumptions C10_gate_accepts_refs_before_cmdsub.
+Print Assumptions C10_refs_before_cmdsub.
 Print Assumptions C10_line.
 Print Assumptions C10_single_quoted.
 Print Assumptions C10_single_quoted_in_line.
